@@ -3,22 +3,28 @@
 import json, shutil, subprocess, sys
 from pathlib import Path
 pid, var = sys.argv[1], sys.argv[2]
-checks = sys.argv[3].split(",") if len(sys.argv) > 3 else [pid]
+args = sys.argv[3:]
 src = Path(f"/tmp/seed_{pid}_out")
+name = var
+if "--src" in args:
+    src = Path(args[args.index("--src") + 1]); del args[args.index("--src"):args.index("--src") + 2]
+if "--as" in args:
+    name = args[args.index("--as") + 1]; del args[args.index("--as"):args.index("--as") + 2]
+checks = args[0].split(",") if args else [pid]
 patch, demo = src / f"patch_{var}.diff", src / f"demo_{var}.py"
 r = subprocess.run([sys.executable, "tools/verify_seed.py", str(patch), str(demo)], stdout=subprocess.PIPE, text=True)
 print(r.stdout[-1500:])
 ver = json.loads(r.stdout[r.stdout.index("{"):]) if "{" in r.stdout else {}
 if r.returncode != 0:
-    print(f"NOT CONFIRMED {pid}-{var}")
+    print(f"NOT CONFIRMED {pid}-{name}")
     sys.exit(1)
-d = Path("seeded") / f"{pid}-{var}"
+d = Path("seeded") / f"{pid}-{name}"
 d.mkdir(parents=True, exist_ok=True)
 shutil.copy(patch, d / "patch.diff")
 shutil.copy(demo, d / "demo.py")
 notes = (src / "notes.md").read_text() if (src / "notes.md").exists() else ""
 (d / "notes.md").write_text(notes)
-meta = {"property": pid, "variant": var, "checks": checks, "source": "independent sub-agent given only the property text and a scratch worktree",
+meta = {"property": pid, "variant": name, "checks": checks, "source": "independent sub-agent given only the property text and a scratch worktree",
         "base_commit": subprocess.run(["git", "-C", "/repo", "rev-parse", "--short", "HEAD"], stdout=subprocess.PIPE, text=True).stdout.strip(),
         "confirmed": {"patch_applies": ver.get("applies"), "repo_tests_with_change": ver.get("tests"), "failed_tests": ver.get("failed"),
                       "demo_with_change_exit": ver.get("demo_with_change", {}).get("exit"),
